@@ -35,6 +35,30 @@ let pos_of_dec s : positive option =
 let toks = ref []
 let word () = match !toks with [] -> failwith "token" | w :: r -> toks := r; w
 let int () = int_of_string (word ())
+
+(* numbers of any size (line numbers go up to isize::MAX, OCaml's int stops at 2^62): decimal string -> Z by
+   repeated halving of the digit list *)
+let z_of_string (s : string) : z =
+  let neg = String.length s > 0 && s.[0] = '-' in
+  let s = if neg then String.sub s 1 (String.length s - 1) else s in
+  let digits = ref (List.init (String.length s) (fun i -> Char.code s.[i] - 48)) in
+  let is_zero ds = List.for_all (fun d -> d = 0) ds in
+  let halve ds =                     (* (quotient digits, remainder) *)
+    let rem = ref 0 in
+    let q = List.map (fun d -> let v = !rem * 10 + d in rem := v mod 2; v / 2) ds in
+    (q, !rem) in
+  let bits = ref [] in               (* least significant first *)
+  while not (is_zero !digits) do
+    let (q, r) = halve !digits in
+    bits := r :: !bits; digits := q
+  done;
+  (* !bits is most significant first now *)
+  match !bits with
+  | [] -> Z0
+  | _ :: rest ->
+      let p = List.fold_left (fun acc b -> if b = 1 then XI acc else XO acc) XH rest in
+      if neg then Zneg p else Zpos p
+let zint () = z_of_string (word ())
 let hexval c = match c with '0'..'9' -> Char.code c - 48 | 'a'..'f' -> Char.code c - 87 | _ -> failwith "hex"
 let hexbytes () : int list =
   let w = word () in
@@ -69,6 +93,18 @@ let run_distcheck () =
   if classes_ok_N ops (nat_of_int threads) m then "TRUE" else "FALSE"
 
 (* ---------- l1 ---------- *)
+(* decimal rendering of arbitrarily large positives: digits (least significant first) doubled per bit *)
+let string_of_pos p =
+  let rec bits = function XH -> [1] | XO q -> 0 :: bits q | XI q -> 1 :: bits q in
+  let msb_first = List.rev (bits p) in
+  let step digits bit =
+    let carry = ref bit in
+    let ds = List.map (fun d -> let v = d * 2 + !carry in carry := v / 10; v mod 10) digits in
+    if !carry > 0 then ds @ [!carry] else ds in
+  let digits = List.fold_left step [0] msb_first in
+  String.concat "" (List.rev_map string_of_int digits)
+let string_of_z = function Z0 -> "0" | Zpos p -> string_of_pos p | Zneg p -> "-" ^ string_of_pos p
+
 let perm_of v = if v < 0 then None else Some (n_of_int v)
 let show_perm = function None -> "-" | Some p -> string_of_int (int_of_n p)
 let show_file (mf : n mfile) =
@@ -80,17 +116,17 @@ let reason_id = function
 let show_report (r : freport) =
   let hs = List.map (function
     | Applied (l, rl, off, diff, f) ->
-        Printf.sprintf "A %d %d %d %d %d" (int_of_z l) (int_of_z rl) (int_of_z off) (int_of_z diff) (int_of_nat f)
+        Printf.sprintf "A %s %s %s %s %d" (string_of_z l) (string_of_z rl) (string_of_z off) (string_of_z diff) (int_of_nat f)
     | Failed r -> Printf.sprintf "F%d" (reason_id r)
     | Skipped -> "S") r.r_hunks in
   Printf.sprintf "ok%d %d %d (%s)" (if r.r_failed then 0 else 1)
     (match r.r_dir with Fwd -> 0 | Rev -> 1) (int_of_nat r.r_fuzz) (String.concat ";" hs)
 
 let read_hunk () : n hunk =
-  let rt = int () in let at = int () in let pre = int () in let suf = int () in
+  let rt = zint () in let at = zint () in let pre = int () in let suf = int () in
   let nrem = int () in let rem = times nrem (fun () -> n_of_int (int ())) in
   let nadd = int () in let add = times nadd (fun () -> n_of_int (int ())) in
-  { h_rem = rem; h_rline = z_of_int rt; h_add = add; h_aline = z_of_int at;
+  { h_rem = rem; h_rline = rt; h_add = add; h_aline = at;
     h_pre = nat_of_int pre; h_suf = nat_of_int suf }
 
 let read_filepatch () =
@@ -136,8 +172,8 @@ let run_l1 () =
 (* reports as tokens: A l rl off diff f | F k | S *)
 let read_report () =
   match word () with
-  | "A" -> let l = int () in let rl = int () in let off = int () in let diff = int () in let f = int () in
-           Applied (z_of_int l, z_of_int rl, z_of_int off, z_of_int diff, nat_of_int f)
+  | "A" -> let l = zint () in let rl = zint () in let off = zint () in let diff = zint () in let f = int () in
+           Applied (l, rl, off, diff, nat_of_int f)
   | "F" -> Failed (match int () with 0 -> NoMatchingLines | 1 -> FileDoesNotExist | 2 -> CreatingFileThatExists
                                    | 3 -> DeletingFileThatDoesNotMatch | _ -> MisorderedHunks)
   | _ -> Skipped
@@ -167,17 +203,6 @@ let hexb (l : n list) = hex_of (ints_of_bytes l)
 let opt_hex = function None -> "/" | Some bs -> hexb bs
 let perm_s = function None -> "-" | Some p -> string_of_int (int_of_n p)
 (* target lines can exceed the range of OCaml int only beyond 2^62: print via string *)
-(* decimal rendering of arbitrarily large positives: digits (least significant first) doubled per bit *)
-let string_of_pos p =
-  let rec bits = function XH -> [1] | XO q -> 0 :: bits q | XI q -> 1 :: bits q in
-  let msb_first = List.rev (bits p) in
-  let step digits bit =
-    let carry = ref bit in
-    let ds = List.map (fun d -> let v = d * 2 + !carry in carry := v / 10; v mod 10) digits in
-    if !carry > 0 then ds @ [!carry] else ds in
-  let digits = List.fold_left step [0] msb_first in
-  String.concat "" (List.rev_map string_of_int digits)
-let string_of_z = function Z0 -> "0" | Zpos p -> string_of_pos p | Zneg p -> "-" ^ string_of_pos p
 
 let dump_filepatch (fp : pfilepatch) =
   let kind = (match fp.pf_kind with Modify -> "M" | Create -> "C" | Delete -> "D") in
